@@ -368,7 +368,7 @@ pub fn run(ctx: &Ctx) -> i32 {
         tier,
         seed: ctx.seed,
         level: "exploration",
-        rule: "scenario = RequireAuthorizationLayer with either a logging wrapper around the real AllowedPeers (lists of 0/1/3/1000 ids; senders absent, listed, one bit off a listed id, sharing a 31-byte prefix, all-zero/all-ones, random) or a scripted authorizer (by header, by body hash, pseudo-random; refusal responses of four statuses, up to 200 KB bodies, extra headers; accepted requests are mutated) around a logging inner service; 2-8 tasks on a 4-worker runtime drive 1-64 clones each with poll_ready/call interleaved across clones, 2k (thorough 15k) requests per task; oracle over the three logs per request id: invoked iff accepted, exactly once; accepted => the inner service's response for that id and the inner saw the mutation; refused => the authorizer's response byte for byte and no invocation; allow-list verdict and status vs. the reference (listed / NotFound / InternalServerError); distinct by (authorizer, list size, clone bucket, outcomes seen) ONE layered service is built per scenario and all tasks drive clones of it (whatever the authorizer or the layer share between clones is shared across the worker threads).".into(),
+        rule: "scenario = RequireAuthorizationLayer with either a logging wrapper around the real AllowedPeers (lists of 0/1/3/1000 ids; senders absent, listed, one bit off a listed id, sharing a 31-byte prefix, all-zero/all-ones, random) or a scripted authorizer (by header, by body hash, pseudo-random; refusal responses of four statuses, up to 200 KB bodies, extra headers; accepted requests are mutated) around a logging inner service; 2-8 tasks on a 4-worker runtime drive 1-64 clones each with poll_ready/call interleaved across clones, 2k (thorough 15k) requests per task; oracle over the three logs per request id: invoked iff accepted, exactly once; accepted => the inner service's response for that id and the inner saw the mutation; refused => the authorizer's response byte for byte and no invocation; allow-list verdict and status vs. the reference (listed / NotFound / InternalServerError); distinct by (authorizer, list size, clone bucket, outcomes seen) ONE layered service is built per scenario and all tasks drive clones of it (whatever the authorizer or the layer share between clones is shared across the worker threads). 5% of the calls drop the response future without polling it ('invoked iff accepted' is still judged); every eighth scenario stacks two layers of the same authorizer type with different allow-lists.".into(),
         assumptions: vec!["response equality on (status, sorted headers, body length, 64-bit body hash)".into()],
         summary,
         extra: Default::default(),
